@@ -54,6 +54,9 @@ pub(crate) struct FilesEntryIterator {
 
     /// Options to configure behavior when reading from table files.
     read_options: ReadOptions,
+
+    /// The first error that cut a `next` or `prev` call short (here or in a table iterator).
+    maybe_error: Option<RainDBError>,
 }
 
 /// Crate-only methods
@@ -70,6 +73,7 @@ impl FilesEntryIterator {
             current_table_iter: None,
             table_cache,
             read_options,
+            maybe_error: None,
         }
     }
 }
@@ -79,6 +83,7 @@ impl FilesEntryIterator {
     /// Set the table iterator to be used for iteration.
     fn set_table_iter(&mut self, maybe_new_index: Option<usize>) -> RainDBResult<()> {
         if maybe_new_index.is_none() || maybe_new_index.unwrap() == self.file_list.len() {
+            self.save_table_iter_status();
             self.current_file_index = self.file_list.len();
             self.current_table_iter = None;
             return Ok(());
@@ -93,10 +98,20 @@ impl FilesEntryIterator {
             let table = self
                 .table_cache
                 .find_table(self.file_list[new_index].file_number())?;
+            self.save_table_iter_status();
             self.current_table_iter = Some(Table::iter_with(table, self.read_options.clone()));
             self.current_file_index = new_index;
         }
         Ok(())
+    }
+
+    /// Keep the error of the table iterator that is about to be replaced.
+    fn save_table_iter_status(&mut self) {
+        if self.maybe_error.is_none() {
+            if let Some(table_iter) = self.current_table_iter.as_ref() {
+                self.maybe_error = table_iter.status();
+            }
+        }
     }
 
     /// Move forward through any empty files.
@@ -208,6 +223,9 @@ impl RainDbIterator for FilesEntryIterator {
                     "There was an error skipping forward. Original error: {}",
                     error
                 );
+                if self.maybe_error.is_none() {
+                    self.maybe_error = Some(error);
+                }
                 return None;
             }
         }
@@ -230,6 +248,9 @@ impl RainDbIterator for FilesEntryIterator {
                     "There was an error skipping backward. Original error: {}",
                     error
                 );
+                if self.maybe_error.is_none() {
+                    self.maybe_error = Some(error);
+                }
                 return None;
             }
         }
@@ -247,6 +268,16 @@ impl RainDbIterator for FilesEntryIterator {
         }
 
         self.current_table_iter.as_ref().unwrap().current()
+    }
+
+    fn status(&self) -> Option<Self::Error> {
+        if self.maybe_error.is_some() {
+            return self.maybe_error.clone();
+        }
+
+        self.current_table_iter
+            .as_ref()
+            .and_then(|table_iter| table_iter.status())
     }
 }
 
@@ -324,7 +355,8 @@ impl MergingIterator {
             }
         }
 
-        None
+        // Errors met while stepping are kept by the child iterators
+        self.iterators.iter().find_map(|iter| iter.status())
     }
 
     /// Register a closure that is called when the iterator is dropped.
@@ -602,6 +634,14 @@ impl RainDbIterator for MergingIterator {
         }
 
         None
+    }
+
+    fn status(&self) -> Option<Self::Error> {
+        if let Some(error) = self.errors.iter().flatten().next() {
+            return Some(error.clone());
+        }
+
+        self.iterators.iter().find_map(|iter| iter.status())
     }
 }
 
